@@ -110,7 +110,22 @@ GUARDS_CLI = ["cli_tie_parse_call", "cli_tie_ms_call", "cli_dump_defaults", "cli
 GUARDS_COST = ["cost_loops_migration_matrices", "cost_loops_check_migration_rates", "cost_loops_in_generations",
                "cost_loops_asdict", "cost_loops_asdict_simplified", "cost_tie_check_migration_rates",
                "cost_tie_in_generations", "cost_tie_asdict_loops", "cost_tie_dump", "cost_nests"]
-G_RESOLVE = T("TablesGuards", GUARDS_RESOLVE) + T("TablesGuardsMatrices", GUARDS_MATRICES)
+# semantic tie of the validators of the record classes (C14: Theorems/TablesGuardsRecords.lean) and of Deme / Graph
+# (C01, C03: Theorems/TablesGuardsRecordsResolve.lean): Generated/GuardsRecords.lean
+GUARDS_RECORDS_SHAPE = ["guards_sites_records", "guards_context_records", "guards_records_hooks", "guards_records_loops"]
+GUARDS_RECORDS = GUARDS_RECORDS_SHAPE + [
+    "guard_record_proportion_meaning", "guards_tie_split_post_init", "guards_tie_branch_post_init",
+    "guards_tie_merge_check_proportions", "guards_tie_merge_post_init",
+    "guards_tie_admix_check_proportions", "guards_tie_admix_post_init"]
+GUARDS_RECORDS_RESOLVE = [
+    "guards_deme_check_ancestors_body", "guards_deme_check_proportions_body", "guards_deme_post_init_body",
+    "guards_deme_check_proportions_is_merge", "guard_deme_duplicate_ancestors_meaning", "guard_deme_own_ancestor_meaning",
+    "guard_deme_proportions_sum_meaning", "guard_deme_lengths_meaning", "guard_deme_unit_interval_meaning",
+    "guard_deme_positive_meaning", "guards_tie_deme_validators",
+    "guard_graph_units_need_generation_time_meaning", "guard_graph_generations_meaning",
+    "guards_graph_post_init_default", "guards_tie_graph_post_init"]
+G_RESOLVE = T("TablesGuards", GUARDS_RESOLVE) + T("TablesGuardsMatrices", GUARDS_MATRICES) \
+    + T("TablesGuardsRecords", GUARDS_RECORDS_SHAPE) + T("TablesGuardsRecordsResolve", GUARDS_RECORDS_RESOLVE)
 # `str.isidentifier` beyond ASCII: the interpreter's identifier classes, regenerated on every run (Generated/Ident.lean)
 IDENT_TABLES = T("TablesIdent", ["tables_valid_deme_name", "tables_xid_start", "tables_xid_continue", "tables_xid_start_wf",
                                  "tables_xid_continue_wf", "tables_xid_start_sub_continue", "isIdStart_ascii", "isIdCont_ascii"])
@@ -128,7 +143,7 @@ EXTRA = {
     "C11": T("TablesFacts", ["fact_in_generations_copies_first"]) + T("TablesGuardsRescale", GUARDS_RESCALE),
     "C12": T("TablesConst", ["tables_rel_tol"]) + T("TablesGuardsMatrices", GUARDS_MATRICES),
     "C13": T("TablesConst", ["tables_rel_tol"]) + T("TablesGuardsSizeAt", GUARDS_SIZE_AT),
-    "C14": T("TablesResolve", EVENT_TABLES) + T("TablesGuardsViews", GUARDS_VIEWS),
+    "C14": T("TablesResolve", EVENT_TABLES) + T("TablesGuardsViews", GUARDS_VIEWS) + T("TablesGuardsRecords", GUARDS_RECORDS),
     "C15": T("TablesFacts", ["fact_rename_demes_copies_first"]) + T("TablesGuardsRename", GUARDS_RENAME) + IDENT_TABLES[:3],
     "C18": T("TablesFacts", ["fact_fromdict_copies_first", "fact_builder_resolve_passes_data", "fact_fromdict_copy_is_unaliased", "fact_deepcopy_unaliased_shape", "fact_builder_resolve_only_passes_data"]),
     "C19": T("TablesMs", ["tables_cli_parse_flags", "tables_cli_parse_tests"]) + T("TablesGuardsCli", GUARDS_CLI),
